@@ -3,7 +3,8 @@
    computation in the package's formatters is ReceiverEstimatedMaximumBitrate.String's unit table; it is modelled with the
    float comparison abstracted (any behaviour), and proved in range after the repair of F17.  Everything else is
    exercised by the correspondence run only (the model predicts "no panic" for every value). *)
-From RTCP Require Import Proofs.Tactics Model.Remb Proofs.Misc.
+From Coq Require Import String.
+From RTCP Require Import Proofs.Tactics Gen.StringShapes Model.Remb Proofs.Misc Proofs.StringFacts.
 
 (* for EVERY behaviour of the float comparison "bitrate >= 1000 after k divisions" the index stays inside the 7-entry table *)
 Theorem C17_remb_unit_index_in_range : forall (ge1000 : nat -> bool) (fuel : nat), (remb_unit_index ge1000 fuel 0 < 7)%nat.
@@ -19,3 +20,13 @@ Theorem C17_unrepaired_guard_any_large_bitrate : forall ge fuel,
   (forall k, (k < 7)%nat -> ge k = true) -> (7 <= fuel)%nat -> remb_unit_index_old ge fuel 0 = 7%nat.
 Proof. exact remb_unit_index_old_reaches_7. Qed.
 Print Assumptions C17_unrepaired_guard_any_large_bitrate.
+
+(* re-derived from the source on every run: every String() method, stringify and formatField are free of constructs that can
+   panic on non-nil well-typed values (the REMB table index excepted, bounded above) ... *)
+Theorem C17_no_panicking_construct_in_any_formatter : forallb shape_ok string_shapes = true.
+Proof. exact string_shapes_ok. Qed.
+Print Assumptions C17_no_panicking_construct_in_any_formatter.
+(* ... and the REMB loop guard in the source is the one the model has (7 entries, powers < 7 - 1) *)
+Theorem C17_remb_guard_in_source_matches_model : remb_units = 7 /\ remb_units - remb_guard_slack = 6.
+Proof. exact remb_guard_matches_model. Qed.
+Print Assumptions C17_remb_guard_in_source_matches_model.
